@@ -6,7 +6,11 @@
 // log), no cross-talk (every task's results equal its solo results), every
 // task finishes.
 #include <pthread.h>
+#include <poll.h>
 #include <semaphore.h>
+#include <sys/prctl.h>
+#include <signal.h>
+#include <time.h>
 #include <sys/wait.h>
 #include <unistd.h>
 #include <errno.h>
@@ -593,6 +597,7 @@ struct Episode {
   uint64_t kind_count[Y_NUM] = {0};
   bool all_finished = true;
   uint64_t trace_hash = 0;
+  bool wallclock = false;  // episode ended by the wall-clock protection
 };
 
 void RunConcurrent(const SPlan &p, const std::vector<std::vector<OpInput>> &in,
@@ -653,10 +658,13 @@ uint64_t TraceHash(const std::vector<Switch> &t);
 // One episode, in-process: the concurrent phase FIRST, on whatever state the
 // process has, then every task alone for the reference results. (Dropping ops
 // that run very long is decided by a deterministic access counter.)
+void (*g_after_concurrent)() = nullptr;
+
 uint64_t RunSPlanInProcess(const SPlan &p, std::vector<std::vector<OpInput>> &in,
                            std::vector<SFinding> *out, Episode *ep_out) {
   Episode ep;
   RunConcurrent(p, in, &ep);
+  if (g_after_concurrent) g_after_concurrent();
   std::vector<std::vector<OpResult>> solo(p.tasks.size());
   for (size_t t = 0; t < p.tasks.size(); ++t) {
     for (size_t k = 0; k < p.tasks[t].size(); ++k) {
@@ -758,6 +766,7 @@ uint64_t RunSPlan(const SPlan &plan_in, const std::string &repo,
     if (pipe(fd) != 0) abort();
     pid_t pid = fork();
     if (pid == 0) {
+      prctl(PR_SET_PDEATHSIG, SIGKILL);
       close(fd[0]);
       std::vector<std::vector<OpInput>> tmp;
       Prepare(p, repo, &tmp);
@@ -811,9 +820,19 @@ uint64_t RunSPlan(const SPlan &plan_in, const std::string &repo,
   // ---- episode child (cold) ----
   int fd[2];
   if (pipe(fd) != 0) abort();
+  static int s_marker_fd = -1;
   pid_t pid = fork();
   if (pid == 0) {
+    prctl(PR_SET_PDEATHSIG, SIGKILL);
     close(fd[0]);
+    // One byte as soon as the concurrent phase is over: the parent tells a
+    // concurrent phase that never ends from a slow solo phase.
+    s_marker_fd = fd[1];
+    g_after_concurrent = [] {
+      const char c = 'C';
+      ssize_t r = write(s_marker_fd, &c, 1);
+      (void)r;
+    };
     for (size_t t = 0; t < p.tasks.size(); ++t)
       for (size_t k = 0; k < p.tasks[t].size(); ++k)
         if (p.tasks[t][k].kind == 0 && in[t][k].usable) {
@@ -860,10 +879,124 @@ uint64_t RunSPlan(const SPlan &plan_in, const std::string &repo,
   }
   close(fd[1]);
   std::string text;
-  ReadAll(fd[0], &text);
+  // Wall-clock protection of the episode (harness protection; a verdict only
+  // in the one case described below). Stage 1: the concurrent phase.
+  auto now_s = [] {
+    timespec ts;
+    clock_gettime(CLOCK_MONOTONIC, &ts);
+    return ts.tv_sec + ts.tv_nsec * 1e-9;
+  };
+  const double kStageLimit = 40.0;
+  auto read_until = [&](double deadline, bool first_byte_only) {
+    // Returns false on timeout.
+    for (;;) {
+      const double left = deadline - now_s();
+      if (left <= 0) return false;
+      pollfd pf;
+      pf.fd = fd[0];
+      pf.events = POLLIN;
+      const int pr = poll(&pf, 1, static_cast<int>(left * 1000) + 1);
+      if (pr < 0 && errno == EINTR) continue;
+      if (pr <= 0) continue;
+      char buf[65536];
+      const ssize_t n = read(fd[0], buf, first_byte_only ? 1 : sizeof(buf));
+      if (n < 0 && errno == EINTR) continue;
+      if (n <= 0) return true;  // EOF: the child is done (or dead)
+      text.append(buf, static_cast<size_t>(n));
+      if (first_byte_only) return true;
+    }
+  };
+  const double t_start = now_s();
+  bool concurrent_hung = !read_until(t_start + kStageLimit, true);
+  bool solo_hung = false;
+  if (!concurrent_hung) solo_hung = !read_until(now_s() + kStageLimit, false);
+  if (concurrent_hung || solo_hung) kill(pid, SIGKILL);
   close(fd[0]);
   int status = 0;
   waitpid(pid, &status, 0);
+  if (!text.empty() && text[0] == 'C') text.erase(0, 1);
+  if (concurrent_hung) {
+    // Does every task terminate alone? A second cold child runs the solo phase
+    // only. The concurrent phase is a serialised execution of the same calls,
+    // so with solo time ts it should take a small multiple of ts; a verdict is
+    // given only if the limit was more than ten times that (plus slack), the
+    // rest is undecided.
+    int fd2[2];
+    if (pipe(fd2) != 0) abort();
+    const double t2 = now_s();
+    pid_t pid2 = fork();
+    if (pid2 == 0) {
+      prctl(PR_SET_PDEATHSIG, SIGKILL);
+      close(fd2[0]);
+      for (size_t t = 0; t < p.tasks.size(); ++t)
+        for (size_t k = 0; k < p.tasks[t].size(); ++k) {
+          if (p.tasks[t][k].kind == 0 && in[t][k].usable) {
+            in[t][k].geom = BuildGeometry(p.tasks[t][k].w);
+            if (!in[t][k].geom) in[t][k].usable = false;
+          }
+          OpResult r;
+          TsanTaskStart(static_cast<int>(t));
+          RunOp(p.tasks[t][k], in[t][k], &r);
+        }
+      const char c = 'S';
+      ssize_t r = write(fd2[1], &c, 1);
+      (void)r;
+      _exit(0);
+    }
+    close(fd2[1]);
+    bool solo_done = false;
+    for (;;) {
+      const double left = t2 + kStageLimit - now_s();
+      if (left <= 0) break;
+      pollfd pf;
+      pf.fd = fd2[0];
+      pf.events = POLLIN;
+      const int pr = poll(&pf, 1, static_cast<int>(left * 1000) + 1);
+      if (pr < 0 && errno == EINTR) continue;
+      if (pr <= 0) continue;
+      char c;
+      const ssize_t n = read(fd2[0], &c, 1);
+      if (n < 0 && errno == EINTR) continue;
+      solo_done = n == 1 && c == 'S';
+      break;
+    }
+    const double ts = now_s() - t2;
+    if (!solo_done) kill(pid2, SIGKILL);
+    close(fd2[0]);
+    int st2 = 0;
+    waitpid(pid2, &st2, 0);
+    Hasher h;
+    if (solo_done && 10.0 * ts + 10.0 <= kStageLimit) {
+      SFinding f;
+      f.cls = "hang";
+      f.sig = "hang_under_schedule";
+      char buf[200];
+      snprintf(buf, sizeof(buf),
+               "the concurrent phase did not finish within %.0f s; the same calls run "
+               "alone finish in %.2f s",
+               kStageLimit, ts);
+      f.detail = buf;
+      out->push_back(f);
+      if (effective) *effective = p;
+      h.Str(f.sig);
+    } else {
+      h.U64(0x0badc10c);
+    }
+    if (ep_out) {
+      *ep_out = Episode();
+      ep_out->wallclock = true;
+    }
+    return h.Digest();
+  }
+  if (solo_hung) {
+    Hasher h;
+    h.U64(0x0badc10c);
+    if (ep_out) {
+      *ep_out = Episode();
+      ep_out->wallclock = true;
+    }
+    return h.Digest();
+  }
   Json j;
   if (text.empty() || !Json::Parse(text, &j)) {
     SFinding f;
@@ -977,11 +1110,13 @@ int SchedMain(const std::map<std::string, std::string> &a, const std::string &cm
   if (cmd == "batch") {
     Json cands = Json::Array(), samples = Json::Array(), canary_failures = Json::Array();
     uint64_t runs = 0, tasks_run = 0, ops_run = 0, static_acc = 0, total_acc = 0,
-             yields = 0, switches = 0, with_switch = 0;
+             yields = 0, switches = 0, with_switch = 0, wallclock = 0,
+             episode_wallclock = 0;
     std::map<std::string, uint64_t> yk, strat, sigcount;
     std::vector<uint64_t> trace_hashes;
     bool canary_race_seen = false, canary_guard_clean = false;
     static uint64_t w_runs, w_tasks, w_ops, w_static, w_total, w_yields, w_switches, w_with;
+    static uint64_t w_wallclock;
     static uint64_t w_yk[Y_NUM];
     static std::map<std::string, uint64_t> w_strat;
     static std::vector<uint64_t> w_traces;
@@ -989,6 +1124,7 @@ int SchedMain(const std::map<std::string, std::string> &a, const std::string &cm
     PoolCallbacks cb;
     cb.init = [&](int) {
       w_runs = w_tasks = w_ops = w_static = w_total = w_yields = w_switches = w_with = 0;
+      w_wallclock = 0;
       memset(w_yk, 0, sizeof(w_yk));
       // No warm-up: the worker itself never runs codec code (see RunSPlan).
     };
@@ -1007,6 +1143,7 @@ int SchedMain(const std::map<std::string, std::string> &a, const std::string &cm
       w_yields += ep.yields;
       w_switches += ep.switches;
       if (ep.switches) ++w_with;
+      if (ep.wallclock) ++w_wallclock;
       for (int k = 0; k < Y_NUM; ++k) w_yk[k] += ep.kind_count[k];
       ++w_strat[p.strategy];
       w_traces.push_back(ep.trace_hash);
@@ -1067,6 +1204,7 @@ int SchedMain(const std::map<std::string, std::string> &a, const std::string &cm
       s["yields"] = static_cast<unsigned long long>(w_yields);
       s["switches"] = static_cast<unsigned long long>(w_switches);
       s["with_switch"] = static_cast<unsigned long long>(w_with);
+      s["wallclock"] = static_cast<unsigned long long>(w_wallclock);
       Json y = Json::Object();
       for (int k = 0; k < Y_NUM; ++k) y[kYieldNames[k]] = static_cast<unsigned long long>(w_yk[k]);
       s["yk"] = y;
@@ -1109,11 +1247,11 @@ int SchedMain(const std::map<std::string, std::string> &a, const std::string &cm
         yields += j.get("yields").U64();
         switches += j.get("switches").U64();
         with_switch += j.get("with_switch").U64();
+        if (j.has("wallclock")) episode_wallclock += j.get("wallclock").U64();
         for (auto &kv : j.get("yk").items()) yk[kv.first] += kv.second.U64();
         for (auto &kv : j.get("strat").items()) strat[kv.first] += kv.second.U64();
       }
     };
-    uint64_t wallclock = 0;
     cb.on_death = [&](const PoolDeath &d) {
       std::string sig, excerpt;
       const std::string cls = ClassifyDeath(d, &sig, &excerpt);
@@ -1169,7 +1307,7 @@ int SchedMain(const std::map<std::string, std::string> &a, const std::string &cm
     sum["distinct_schedules"] = static_cast<unsigned long long>(trace_hashes.size());
     sum["distinct_nontrivial"] = static_cast<unsigned long long>(trace_hashes.size());
     sum["runs_with_switch"] = static_cast<unsigned long long>(with_switch);
-    sum["undecided_wallclock"] = static_cast<unsigned long long>(wallclock);
+    sum["undecided_wallclock"] = static_cast<unsigned long long>(wallclock + episode_wallclock);
     sum["static_symbols"] = static_cast<unsigned long long>(TsanNumSymbols());
     sum["static_bytes"] = static_cast<unsigned long long>(TsanStaticBytes());
     sum["wall_s"] = pr.wall_s;
